@@ -75,7 +75,11 @@ func (w *Writer) Write(data []byte) (n int, err error) {
 		return n, w.err
 	}
 	if w.w != nil {
-		return w.w.Write(data)
+		n, err = w.w.Write(data)
+		if err != nil {
+			w.err = err
+		}
+		return n, err
 	}
 	n = len(data)
 	var num int
@@ -107,9 +111,10 @@ func (w *Writer) Flush() (err error) {
 		return w.err
 	}
 	if w.w != nil {
-		return w.w.Flush()
+		err = w.w.Flush()
+	} else {
+		err = w.lc.Flush()
 	}
-	err = w.lc.Flush()
 	if err != nil {
 		w.err = err
 	}
@@ -124,9 +129,10 @@ func (w *Writer) Close() (err error) {
 		return w.err
 	}
 	if w.w != nil {
-		return w.w.Close()
+		err = w.w.Close()
+	} else {
+		err = w.lc.Close()
 	}
-	err = w.lc.Close()
 	if err != nil {
 		w.err = err
 		return err
